@@ -3,6 +3,7 @@
 use crate::engine::{Ctx, Failure};
 use serde_json::Value;
 
+pub mod c01;
 pub mod c02;
 pub mod c03;
 pub mod c05;
@@ -26,7 +27,7 @@ pub struct PropDef {
 }
 
 pub fn all() -> Vec<&'static PropDef> {
-    vec![&c02::DEF, &c03::DEF, &c05::DEF, &c07::DEF]
+    vec![&c01::DEF, &c02::DEF, &c03::DEF, &c05::DEF, &c07::DEF]
 }
 
 pub fn find(id: &str) -> Option<&'static PropDef> {
